@@ -216,6 +216,12 @@ impl Boudot2000RangeProof {
     where
         H: Digest,
     {
+        // F only ever enters as a base of modular exponentiations: F + k*n and (for even
+        // exponents) -F would be accepted in its place. Only the canonical residue is a valid
+        // encoding.
+        if proof_of_s.F < 0 || &proof_of_s.F >= n {
+            return false;
+        }
         Self::verify_same_secret::<H>(
             &proof_of_s.F,
             &proof_of_s.E,
